@@ -625,8 +625,6 @@ SEARCH_MODEL_TRUSTED = [
 
 reg(Prop("C06", "Search returns a legal move unless the game is over; board left untouched",
          ["Properties/C06.v", "Properties/C06_skel.v", "Properties/C06_model.v", "Properties/C06_closed.v"],
-
-         ["Properties/C06.v", "Properties/C06_skel.v", "Properties/C06_closed.v"],
          [StreamCfg("c06", 20000, 150000, judge="judge_c06", model=False,
                     rule="40 fixed roots (in check, single reply, promotion, en passant, clocks 97..101, 2nd/3rd/4th occurrence "
                          "through histories, mate, stalemate, 16 queens) x {every hard node budget k in 0..300 (quick) / 0..2000+ "
@@ -1098,3 +1096,13 @@ reg(Prop("C01", "Playable moves are exactly the legal moves of chess", "Properti
                       "sampled board by the judge)",
                       "moves are the 15-bit encodings of move.Move (from, to, promotion piece); the Zobrist table is arbitrary"],
          design_ref="5/C01"))
+
+
+# ------------------------------------------------------------------------------------------------
+# registry sanity (a malformed registration must fail loudly at import time, not at run time)
+
+for _pid, _p in PROPS.items():
+    assert all(isinstance(_s, StreamCfg) for _s in _p.streams), f"{_pid}: streams must be StreamCfg objects"
+    assert all(isinstance(_r, str) and _r.endswith(".v") for _r in coq_list(_p)), f"{_pid}: coq must name .v files"
+    assert all(os.path.exists(os.path.join(V.COQ, _r)) for _r in coq_list(_p)), f"{_pid}: missing Properties file"
+    assert isinstance(_p.allowed_axioms, set) and all(isinstance(_a, str) for _a in _p.allowed_axioms), f"{_pid}: allowed_axioms"
